@@ -45,16 +45,17 @@ Definition xml_escape (s : xstr) : xstr := flat_map xml_escape1 s.
 Fixpoint unescape (s : xstr) : option xstr :=
   match s with
   | [] => Some []
-  | 38 :: r =>
-      match r with
-      | 108 :: 116 :: 59 :: r' => option_map (cons c_lt) (unescape r')
-      | 103 :: 116 :: 59 :: r' => option_map (cons c_gt) (unescape r')
-      | 97 :: 109 :: 112 :: 59 :: r' => option_map (cons c_amp) (unescape r')
-      | 113 :: 117 :: 111 :: 116 :: 59 :: r' => option_map (cons c_quot) (unescape r')
-      | 97 :: 112 :: 111 :: 115 :: 59 :: r' => option_map (cons c_apos) (unescape r')
-      | _ => None
-      end
-  | c :: r => option_map (cons c) (unescape r)
+  | c :: r =>
+      if c =? c_amp then
+        match r with
+        | 108 :: 116 :: 59 :: r' => option_map (cons c_lt) (unescape r')
+        | 103 :: 116 :: 59 :: r' => option_map (cons c_gt) (unescape r')
+        | 97 :: 109 :: 112 :: 59 :: r' => option_map (cons c_amp) (unescape r')
+        | 113 :: 117 :: 111 :: 116 :: 59 :: r' => option_map (cons c_quot) (unescape r')
+        | 97 :: 112 :: 111 :: 115 :: 59 :: r' => option_map (cons c_apos) (unescape r')
+        | _ => None
+        end
+      else option_map (cons c) (unescape r)
   end.
 
 Fixpoint prefixb (p s : xstr) : bool :=
@@ -199,26 +200,32 @@ with p_content (fuel : nat) (dns : xstr) (s : xstr) {struct fuel} : option (list
   | S f =>
       match s with
       | [] => None
-      | 60 :: 47 :: _ => Some ([], s)
-      | 60 :: _ =>
-          match p_elem f dns s with
-          | None => None
-          | Some (e, s1) =>
-              match p_content f dns s1 with
-              | None => None
-              | Some (l, s2) => Some (e :: l, s2)
-              end
-          end
-      | _ =>
-          let (raw, s1) := span (fun c => negb (c =? 60)) s in
-          match unescape raw with
-          | None => None
-          | Some txt =>
-              match p_content f dns s1 with
-              | None => None
-              | Some (l, s2) => Some (XText txt :: l, s2)
-              end
-          end
+      | c :: r =>
+          if c =? 60 then
+            match r with
+            | [] => None
+            | c2 :: _ =>
+                if c2 =? 47 then Some ([], s)          (* the end tag of the enclosing element *)
+                else
+                  match p_elem f dns s with
+                  | None => None
+                  | Some (e, s1) =>
+                      match p_content f dns s1 with
+                      | None => None
+                      | Some (l, s2) => Some (e :: l, s2)
+                      end
+                  end
+            end
+          else
+            let (raw, s1) := span (fun c => negb (c =? 60)) s in
+            match unescape raw with
+            | None => None
+            | Some txt =>
+                match p_content f dns s1 with
+                | None => None
+                | Some (l, s2) => Some (XText txt :: l, s2)
+                end
+            end
       end
   end.
 
